@@ -1,4 +1,5 @@
 """C20 -- layout object properties round-trip and do not interfere (spec/Layout.tla)."""
+import concurrent.futures
 import json
 import os
 import vlib
@@ -75,10 +76,38 @@ def signature(mm, kind):
         parts.append("f=" + str(arg.get("f")))
     if a == "copy":
         parts.append("mode=%s%s" % (arg.get("mode"), ":self" if arg.get("o") == arg.get("from") else ""))
+        if arg.get("mode") == "props" and arg.get("o") != arg.get("from"):
+            rec = mm.get("rec") or st
+            if kind == "text" and src_pos_outside_unit(rec, arg.get("from")):
+                parts.append("src-xy-outside-0..1")
+            if nul_char_over_set_char(rec, mm.get("prev"), arg.get("from"), arg.get("o")):
+                parts.append("src-char-nul")
     if a in ("copy", "scribble", "fini"):
-        what = what.split(".")[0]
+        what = "differs" if what.startswith("p0") or what.startswith("p1") else what
     parts.append(what)
     return ":".join(parts)
+
+
+def src_pos_outside_unit(rec, frm):
+    """the source text of a property-wise copy has x or y outside [0,1] (set through "x"/"y", which have no range)"""
+    p = ((rec.get("obs") or {}).get("p%d" % (frm or 0)) or {}).get("pos") or []
+    if len(p) != 6:
+        return False
+    for k in (0, 3):
+        if p[k] != 0:
+            return True                   # not an exact half at all
+        v2 = p[k + 1] * 65536 + p[k + 2]
+        if v2 < 0 or v2 > 2:
+            return True
+    return False
+
+
+def nul_char_over_set_char(rec, prev, frm, to):
+    """property-wise copy where the source holds NUL in a character property (axis lpos/tpos, graph grid/lpos)
+    that was set to a character in the target before the call"""
+    src = (rec.get("obs") or {}).get("p%d" % (frm or 0)) or {}
+    dst = ((prev or {}).get("obs") or {}).get("p%d" % (to or 0)) or {}
+    return any(src.get(k) == [0] and dst.get(k) not in (None, [0]) for k in ("lpos", "tpos", "grid"))
 
 
 def kind_of(beh):
@@ -212,7 +241,7 @@ def rand_value(rng):
     return dict(blank, f="s", c=codes(rng.choice(WORDS)))
 
 
-def gen_histories(ck, n, steps):
+def gen_histories(ck, n, steps, cxx=False):
     rng = ck.rng
     hist = []
     kinds = ["axis", "line", "text", "graph", "world"]
@@ -231,7 +260,8 @@ def gen_histories(ck, n, steps):
                 beh.append({"a": "get", "arg": {"o": o, "name": codes(rng.choice(names))}})
             elif r < 0.84:
                 frm = rng.choice([1 - o, 1 - o, 1 - o, o])
-                beh.append({"a": "copy", "arg": {"o": o, "from": frm, "mode": rng.choice(["null", "empty"])}})
+                modes = ["null", "empty", "clone", "props"] if cxx else ["null", "empty"]
+                beh.append({"a": "copy", "arg": {"o": o, "from": frm, "mode": rng.choice(modes)}})
             elif r < 0.89:
                 beh.append({"a": "scribble", "arg": {"o": o}})
             elif r < 0.92:
@@ -248,12 +278,15 @@ def gen_histories(ck, n, steps):
                 beh.append({"a": "auto", "arg": dict({"o": o}, **v)})
             else:
                 w = rng.choice(WORDS + ["#" + "".join(rng.choice("0123456789abcdefABCDEFg") for _ in range(rng.choice([2, 4, 6, 6, 8, 8, 3, 10])))])
-                beh.append({"a": "cparse", "arg": {"c": codes(w)}})
+                if cxx and rng.random() < 0.4:
+                    beh.append({"a": "cprint", "arg": {"c": [rng.choice([0, 1, 9, 10, 15, 16, 127, 128, 171, 254, 255]) for _ in range(4)]}})
+                else:
+                    beh.append({"a": "cparse", "arg": {"c": codes(w)}})
         hist.append(beh)
     return hist
 
 
-def trace_part(ck, hist, recs2, tag, nt, max_rounds=8):
+def trace_part(ck, hist, recs2, tag, nt, pfx="", max_rounds=8):
     """TLC validates the recorded histories; a rejected history is reported, dropped and the rest validated again."""
     events = vlib.merge_trace(hist, recs2)
     total = len(events)
@@ -283,10 +316,12 @@ def trace_part(ck, hist, recs2, tag, nt, max_rounds=8):
         stp = dict(ev)
         if why in ("Crash", "Hang", "Missing"):
             stp["a"] = beh[ev["i"]]["a"]
-        ck.violation("trace:" + signature({"step": stp, "why": why}, kind_of(beh)),
+        ck.violation(pfx + "trace:" + signature({"step": stp, "why": why, "rec": ev,
+                                                 "prev": evs[matched - 1] if matched and evs[matched - 1]["b"] == ev["b"] else None},
+                                                kind_of(beh)),
                      {"binding": "B(trace validation) " + tag, "matched_prefix": matched, "rejected_event": ev, "tlc": inv,
                       "previous_event": evs[matched - 1] if matched else None,
-                      "behaviour": beh[:ev["i"] + 1], "trace": True})
+                      "behaviour": beh[:ev["i"] + 1], "trace": True, "driver": pfx})
         bad.add(ev["b"])
     by2 = vlib.group_records(recs2)
     good = 0
@@ -307,50 +342,87 @@ def build():
     return vlib.build_driver("layout", ["layout.c"], libs=LIBS)
 
 
-def run(tier):
-    cfg = CFG[tier]
-    ck = vlib.Check(PID, tier)
-    exe = build()
+def build_cxx():
+    return vlib.build_driver("layout_cxx", ["layout_cxx.cpp"], libs=LIBS + ("mpt++",), cxx=True)
 
-    # 1. the design implements the meaning: all operation sequences within the bound
-    if not os.environ.get("C20_DEV_SKIP_MC"):     # development aid only
-        res = vlib.tlc("MC_Layout", cfg["mc"], coverage=False)
-        ck.add_tlc(res, "exhaustive " + cfg["mc"])
 
-    # 2. binding A: every transition of the control skeleton replayed into the real objects
-    gen = vlib.tlc("Gen_Layout", cfg["gen"], workers=4)
-    if gen.error or gen.violation:
-        raise vlib.MachineryError("behaviour export failed: %s %s" % (gen.error, gen.violation))
-    behs = vlib.parse_behaviours(gen.out)
+CXX_ONLY_MODES = ("clone", "props")
+
+
+def c_only(beh):
+    """the C driver has no clone()/object::set(object)/operator<<"""
+    for st in beh:
+        if st["a"] == "cprint" or (st["a"] == "copy" and (st.get("arg") or {}).get("mode") in CXX_ONLY_MODES):
+            return False
+    return True
+
+
+def replay_part(ck, exe, behs, tag, nt):
     recs, _ = vlib.run_driver(exe, vlib.to_script(behs))
     mms = vlib.compare(behs, recs, match)
+    by0 = vlib.group_records(recs)
     for mm in mms:
         beh = behs[mm["b"]]
-        ck.violation(signature(mm, kind_of(beh)), {"binding": "A(replay)", "behaviour": beh, "step": mm["i"],
-                                                   "why": mm["why"], "record": mm["rec"]})
+        if mm["i"] > 0 and len(by0.get(mm["b"], [])) >= mm["i"]:
+            mm["prev"] = by0[mm["b"]][mm["i"] - 1]
+        ck.violation(tag + signature(mm, kind_of(beh)), {"binding": "A(replay) " + (tag or "c"), "behaviour": beh, "step": mm["i"],
+                                                         "why": mm["why"], "record": mm["rec"], "driver": tag})
     by = vlib.group_records(recs)
-    nt = set()
     for b, beh in enumerate(behs):
         if nontrivial(beh, by.get(b, [])):
             nt.add(json.dumps([(s["a"], s.get("arg")) for s in beh], sort_keys=True))
     ck.cov["evaluations"] += len(behs)
-    ck.notes["replayed_behaviours"] = len(behs)
-    ck.notes["replay_mismatches"] = len(mms)
+    ck.notes["replayed_behaviours_" + (tag or "c")] = len(behs)
+    ck.notes["replay_mismatches_" + (tag or "c")] = len(mms)
+
+
+def run(tier):
+    cfg = CFG[tier]
+    ck = vlib.Check(PID, tier)
+    exe = build()
+    exe_cxx = build_cxx()
+    pool = concurrent.futures.ThreadPoolExecutor(max_workers=2)
+
+    # 1. the design implements the meaning: all operation sequences within the bound (runs beside the bindings)
+    mc = None
+    if not os.environ.get("C20_DEV_SKIP_MC"):     # development aid only
+        mc = pool.submit(vlib.tlc, "MC_Layout", cfg["mc"], workers=max(2, vlib.NCPU // 2))
+
+    # 2. binding A: every transition of the control skeleton replayed into the real objects (C and C++)
+    gen = vlib.tlc("Gen_Layout", cfg["gen"], workers=4)
+    if gen.error or gen.violation:
+        raise vlib.MachineryError("behaviour export failed: %s %s" % (gen.error, gen.violation))
+    behs = vlib.parse_behaviours(gen.out)
+    nt = set()
+    fut = pool.submit(replay_part, ck, exe_cxx, behs, "cxx:", nt)
+    replay_part(ck, exe, [b for b in behs if c_only(b)], "", nt)
+    fut.result()
 
     # 3. binding B: recorded executions with values across/beyond every range validated by TLC
-    hist = gen_histories(ck, cfg["nhist"], cfg["steps"])
+    hist = gen_histories(ck, cfg["nhist"], cfg["steps"], cxx=False)
+    hist2 = gen_histories(ck, cfg["nhist"] // 2, cfg["steps"], cxx=True)
     recs2, _ = vlib.run_driver(exe, vlib.to_script(hist))
-    trace_part(ck, hist, recs2, "Trace_Layout", nt)
+    recs3, _ = vlib.run_driver(exe_cxx, vlib.to_script(hist2))
+    fut = pool.submit(trace_part, ck, hist2, recs3, "Trace_Layout_cxx", nt, "cxx:")
+    trace_part(ck, hist, recs2, "Trace_Layout", nt, "")
+    fut.result()
+
+    if mc is not None:
+        ck.add_tlc(mc.result(), "exhaustive " + cfg["mc"])
+    pool.shutdown()
 
     ck.cov["distinct_nontrivial"] = len(nt)
     ck.cov["exhaustive"] = True
     ck.cov["rule"] = ("A: one behaviour per transition of the TLC state graph of Layout under the view (kind, step, set of "
-                      "non-default properties of either object), replayed into the real objects; non-trivial = a property of "
-                      "the target object changed and at least one more operation followed; distinct by call sequence.")
-    ck.cov["samples"] = [vlib.sample_repr(b) for b in behs[len(behs) // 2: len(behs) // 2 + 2]]
+                      "non-default properties of either object), replayed into the real objects through drv/layout.c and (all of "
+                      "them, plus clone/object::set(object)/operator<<) through the C++ wrappers; B: seeded histories recorded "
+                      "from both drivers and validated by TLC.  Non-trivial = a property of the target object changed and at "
+                      "least one more operation followed; distinct by call sequence.")
+    ck.cov["samples"] = [vlib.sample_repr(b) for b in (behs[len(behs) // 2: len(behs) // 2 + 2] + [hist[0][:6]])]
     ck.assumptions = ["TLC/SANY and the CommunityModules Json/IOUtils are correct",
-                      "drv/layout.c projects the state without judgement",
-                      "the tables in Layout.tla are a faithful reading of the documented names/defaults"]
+                      "drv/layout.c and drv/layout_cxx.cpp project the state without judgement",
+                      "the tables in Layout.tla are a faithful reading of the documented names/defaults",
+                      "reals are exercised on exactly representable values only; string ownership is observed, not proved"]
     return ck.finish()
 
 
@@ -361,7 +433,7 @@ def replay(path):
     if not beh:
         print(json.dumps(det, indent=1)[:4000])
         return 2
-    exe = build()
+    exe = build_cxx() if det.get("driver") == "cxx:" else build()
     recs, err = vlib.run_driver(exe, vlib.to_script([beh]))
     if det.get("trace"):
         events = vlib.merge_trace([beh], recs)
@@ -372,5 +444,7 @@ def replay(path):
         return 0 if ok else 1
     mms = vlib.compare([beh], recs, match)
     for mm in mms:
+        if mm["i"] > 0 and len(recs) >= mm["i"]:
+            mm["prev"] = recs[mm["i"] - 1]
         print("VIOLATION property=%s replay=%s  (%s: %s)" % (PID, path, signature(mm, kind_of(beh)), mm["why"]))
     return 1 if mms else 0
